@@ -10,7 +10,7 @@ Definition resolve_meta_key : str := lit "ResolveStringReferences".
 
 (* value.startswith(p) and value.endswith(p) for a one-character p *)
 Definition first_is (c : ch) (s : str) : bool := match s with x :: _ => ceq x c | [] => false end.
-Definition last_is (c : ch) (s : str) : bool := match rev s with x :: _ => ceq x c | [] => false end.
+Definition last_is (c : ch) (s : str) : bool := match rv s with x :: _ => ceq x c | [] => false end.
 
 (* _value_is_nonstring_or_enclosed *)
 Definition nonstring_or_enclosed (v : value) : bool :=
